@@ -119,9 +119,29 @@ def _without(view: str, *names: str) -> str:
     return "\n".join(keep)
 
 
-def compare(inc, fresh) -> list[tuple[str, str, dict]]:
+def _upstream_env(canon: str, paths: list[str]) -> set[str]:
+    """Environment variables used by the producers of `paths` and by everything upstream of them."""
+    g = buildkit.parse_graph(canon)
+    todo = [f"file:{p}" for p in paths]
+    seen, names = set(), set()
+    while todo:
+        key = todo.pop()
+        if key in seen or key not in g:
+            continue
+        seen.add(key)
+        block = g[key]
+        if key.startswith("step:"):
+            names.update(v.removesuffix(" [dynamic]") for v in block.get("using_env"))
+            todo.extend(buildkit.strip_ref(r) for r in block.rel("source"))
+        else:
+            todo.extend(buildkit.strip_ref(r) for r in block.rel("source") if buildkit.strip_ref(r).startswith("step:"))
+    return names
+
+
+def compare(inc, fresh, reverted_env=frozenset()) -> list[tuple[str, str, dict]]:
     """Differences between the end of an incremental history (`inc`: BuildResult carrying the
-    final graph and files) and the from-scratch build `fresh`, as `(signature, what, extra)`."""
+    final graph and files) and the from-scratch build `fresh`, as `(signature, what, extra)`.
+    `reverted_env`: tracked variables that the history set back to an earlier value."""
     found = []
     a = buildkit.active_view(inc.graph_canon)
     b = buildkit.active_view(fresh.graph_canon)
@@ -131,21 +151,27 @@ def compare(inc, fresh) -> list[tuple[str, str, dict]]:
         kinds = buildkit.diff_kinds(a, b)
         extra = {"difference_kinds": kinds, "first_differences (- incremental, + from scratch)": lines}
         a2, b2 = _drop_reverted_optional_memory(inc.graph_canon, fresh.graph_canon)
+        has_env = any(k.endswith(".using_env") for k in kinds)
         env_only = _without(a, "using_env", "digest") == _without(b, "using_env", "digest")
-        if env_only and any(k.endswith(".using_env") for k in kinds):
+        if env_only and has_env:
             found.append(("stale-env-dependency",
                           "a redefined step keeps an environment variable it no longer declares: "
                           + "; ".join(ln for ln in lines if "using_env" in ln)[:300], extra))
+        elif env_only and stale:
+            pass  # only content digests of files differ: the same fact as the stale outputs below
         elif a2 == b2:
             found.append(("reverted-optional-step-keeps-amended-relations",
                           "an optional step that ran earlier and is not needed any more is PENDING in both graphs but "
                           "keeps its amended inputs/outputs as active relations: " + "; ".join(lines[:3])[:300], extra))
         else:
             a3, b3 = _without(a2, "using_env", "digest"), _without(b2, "using_env", "digest")
-            if a3 == b3 and any(k.endswith(".using_env") for k in kinds):
+            if a3 == b3 and has_env:
                 found.append(("stale-env-dependency",
                               "a redefined step keeps an environment variable it no longer declares: "
                               + "; ".join(ln for ln in lines if "using_env" in ln)[:300], extra))
+                found.append(("reverted-optional-step-keeps-amended-relations",
+                              "an optional PENDING step keeps amended relations of an earlier run", extra))
+            elif a3 == b3 and stale:
                 found.append(("reverted-optional-step-keeps-amended-relations",
                               "an optional PENDING step keeps amended relations of an earlier run", extra))
             else:
@@ -153,12 +179,21 @@ def compare(inc, fresh) -> list[tuple[str, str, dict]]:
                 found.append((sig, "the active workflow differs from a build from scratch: " + "; ".join(lines[:4])[:400],
                               extra))
     if stale:
-        known = any(s == "stale-env-dependency" for s, _, _ in found)
-        sig = "stale-output-after-env-redefinition" if known else "stale-output"
-        found.append((sig, f"{len(stale)} output(s) differ from a build from scratch: {stale[:4]}",
-                      {"paths": stale,
-                       "incremental": {p: _text(inc.files.get(p)) for p in stale[:2]},
-                       "from_scratch": {p: _text(fresh.files[p]) for p in stale[:2]}}))
+        detail = {"paths": stale,
+                  "incremental": {p: _text(inc.files.get(p)) for p in stale[:2]},
+                  "from_scratch": {p: _text(fresh.files[p]) for p in stale[:2]}}
+        if any(s == "stale-env-dependency" for s, _, _ in found):
+            sig, what = "stale-output-after-env-redefinition", "after a redefinition that dropped an environment variable"
+        elif reverted_env & _upstream_env(fresh.graph_canon, stale):
+            names = sorted(reverted_env & _upstream_env(fresh.graph_canon, stale))
+            sig = "env-value-reverted-not-noticed"
+            what = (f"the tracked variable(s) {names} went back to an earlier value; the startup rescan compares "
+                    f"with the value recorded when the step was declared, so the step built with the value in "
+                    f"between is kept")
+            detail["variables"] = names
+        else:
+            sig, what = "stale-output", "no known cause"
+        found.append((sig, f"{len(stale)} output(s) differ from a build from scratch ({what}): {stale[:4]}", detail))
     if a == b and not stale:
         da, db = buildkit.step_digests(inc.graph_canon), buildkit.step_digests(fresh.graph_canon)
         for key, (state, digests) in sorted(db.items()):
@@ -225,7 +260,7 @@ def run_case(ctx, index: int, *, salt="hist"):
                        "rejected": [[x.label, x.rpc_errors] for x in last.runs if x.rpc_errors][:3],
                        "log": last.log[-5:]}))
         return found, summary, hist
-    for sig, what, extra in compare(final, fresh):
+    for sig, what, extra in compare(final, fresh, _reverted_env(hist)):
         if sig == "succeeded-step-digest-differs" and _ran_during_creator_rerun(results, final, extra["step"]):
             # Behaviour 2 of notes/simdirector.md (owned by C03/C05): the step completed while its creator
             # was re-running and had re-declared a static input that was still UNCONFIRMED, so
@@ -235,6 +270,17 @@ def run_case(ctx, index: int, *, salt="hist"):
         else:
             found.append((sig, what, extra))
     return found, summary, hist
+
+
+def _reverted_env(hist) -> frozenset:
+    """Variables that took a value again which they had before a different one."""
+    out = set()
+    for name in buildkit.projgen.ENV_NAMES if hasattr(buildkit, "projgen") else ("SIM_A", "SIM_B"):
+        values = [m.env.get(name) for m in hist.models]
+        compact = [v for i, v in enumerate(values) if i == 0 or v != values[i - 1]]
+        if len(compact) != len(set(compact)):
+            out.add(name)
+    return frozenset(out)
 
 
 def _ran_during_creator_rerun(results, final, step_key: str) -> bool:
